@@ -3,7 +3,7 @@
    below (header x variable definitions x directives x description x selection-set body) laid out
    by one of the layout schemes (which white space / commas / line breaks go between the tokens).
    For every sentence TLC checks the design-level statements of IsoFormat on the token sequence
-   (TokensPreserved, SeparatorsOk; Idempotent except in the predicted situation CommaAfterOwnLine)
+   (TokensPreserved, SeparatorsOk, Idempotent)
    and emits the laid-out tokens with the predicted output atoms; the driver concatenates the texts
    and runs the real formatter and the real parser on them.
    {e} and {c} in token texts are replaced by the driver with a 2-byte and a 3-byte character. *)
@@ -100,5 +100,5 @@ DesignOk ==
     sentence # << >> =>
         /\ TokensPreserved(sentence)
         /\ SeparatorsOk(sentence)
-        /\ ~CommaAfterOwnLine(sentence) => Idempotent(sentence)
+        /\ Idempotent(sentence)
 =============================================================================
